@@ -438,6 +438,49 @@ def site_case(c):
         g.compute_rpo()
         _ig, heads = cf.intervals(g)
         return ";".join("%s:%s" % (h.name, ".".join(n.name for n in iv.content)) for h, iv in heads.items())
+    if op == "dseq":
+        # the real derived_sequence; `intervals` is wrapped only to keep a reference to every interval graph
+        # (the last, single-node one is not part of the returned deriv_seq)
+        allv = c["nodes"]
+        nodes = {i: bb.StatementBlock(str(i), []) for i in allv}
+        g = gr.Graph()
+        for i in allv:
+            g.add_node(nodes[i])
+        for a, b in c["edges"]:
+            g.add_edge(nodes[a], nodes[b])
+        g.entry = nodes[c["entry"]]
+        g.compute_rpo()
+        seen = []
+        real_intervals = cf.intervals
+
+        def recording(graph):
+            ig, ih = real_intervals(graph)
+            seen.append((graph, ig, ih))
+            if len(seen) > c.get("cap", 200):
+                raise RuntimeError("derived_sequence does not stop")
+            return ig, ih
+        cf.intervals = recording
+        try:
+            dseq, dint = cf.derived_sequence(g)
+        finally:
+            cf.intervals = real_intervals
+        if len(dint) != len(seen) or any(a is not b[2] for a, b in zip(dint, seen)):
+            return "other:deriv_interv"
+        if len(dseq) != len(seen) or any(a is not b[0] for a, b in zip(dseq, seen)):
+            return "other:deriv_seq"
+        name = {n: n.name for n in g.nodes}           # canonical names of the nodes of the current level
+        steps = []
+        for graph, ig, ih in seen:
+            pos = {iv: i for i, iv in enumerate(ig.nodes)}
+            if list(ih.values()) != ig.nodes:
+                return "other:interval_graph.nodes"
+            hs = ";".join("%s:%s" % (name[h], ".".join(str(name[n]) for n in iv.content)) for h, iv in ih.items())
+            recs = ",".join("%s>%s" % (name[iv.head], name[s.head]) for iv in ig.nodes for s in ig.sucs(iv)) or "-"
+            preds = ";".join(",".join(str(pos[p]) for p in ig.all_preds(iv)) or "-" for iv in ig.nodes)
+            rpo = ",".join(str(pos[iv]) for iv in ig.rpo) or "-"
+            steps.append("%s E %s P %s R %s e %s" % (hs, recs, preds, rpo, pos[ig.entry]))
+            name = pos
+        return " / ".join(steps)
     raise ValueError(op)
 
 
